@@ -475,10 +475,28 @@ impl TestCaseConfig {
     }
 }
 
-/// Renders the value as double-quoted YAML scalar (backslashes and double
-/// quotes are escaped), so that it can be embedded in a one-line flow mapping
+/// Renders the value as double-quoted YAML scalar (backslashes, double quotes,
+/// line breaks and control characters are escaped), so that it can be embedded
+/// in a one-line flow mapping
 fn yaml_double_quoted(value: &str) -> String {
-    format!("\"{}\"", value.replace('\\', "\\\\").replace('"', "\\\""))
+    let mut out = String::with_capacity(value.len() + 2);
+    out.push('"');
+    for ch in value.chars() {
+        match ch {
+            '\\' => out.push_str("\\\\"),
+            '"' => out.push_str("\\\""),
+            '\n' => out.push_str("\\n"),
+            '\r' => out.push_str("\\r"),
+            '\t' => out.push_str("\\t"),
+            '\u{85}' => out.push_str("\\N"),
+            '\u{2028}' => out.push_str("\\L"),
+            '\u{2029}' => out.push_str("\\P"),
+            ch if ch.is_control() => out.push_str(&format!("\\x{:02x}", ch as u32)),
+            ch => out.push(ch),
+        }
+    }
+    out.push('"');
+    out
 }
 
 /// Renders the value as-is if it is a plain word (as before), otherwise as
